@@ -269,6 +269,12 @@ void verif_hook_write_dns(struct query *q, const char *data, int datalen, char d
 	after_ans = 1;
 }
 
+void verif_hook_sweep(void)
+{
+	ev_begin("sweep");
+	after_ans = 0;
+}
+
 /* ------------------------------------------------------------------ worker = the real tunnel() */
 static void *worker_main(void *arg)
 {
